@@ -24,6 +24,7 @@ import (
 	"context"
 	"errors"
 	"fmt"
+	"runtime"
 	"sort"
 	"strings"
 	"sync"
@@ -486,7 +487,7 @@ func TestVerifC14Cancel(t *testing.T) {
 				}
 				total += len(plans[i])
 			}
-			mode := []string{"at_time", "before_call", "during_call", "in_validator", "at_time", "in_tracer", "in_tracer"}[c.Intn(7)]
+			mode := []string{"at_time", "before_call", "during_call", "in_validator", "at_time", "in_tracer", "in_tracer", "loop_busy", "loop_busy"}[c.Intn(9)]
 			cancelWorker, cancelStep := c.Intn(W), 0
 			cancelStep = c.Intn(len(plans[cancelWorker]))
 			cancelAt := time.Duration(c.Range(0, 900)) * time.Millisecond
@@ -580,6 +581,44 @@ func TestVerifC14Cancel(t *testing.T) {
 						opMu.Unlock()
 					}
 				}(wk, plans[i])
+			}
+			if mode == "loop_busy" {
+				// The event loop is kept busy (a thunk that waits for a channel: no virtual time has to pass) while 4..16 further
+				// callers each start one call, most of them the tear-down kind; the context is cancelled, then the loop is let
+				// go: it finds the queued requests and the cancellation ready at the same moment, whichever it serves first.
+				if cancelAt > 0 {
+					time.Sleep(cancelAt)
+				}
+				release, held := make(chan struct{}), make(chan struct{})
+				w.nd.ps.eval <- func() { close(held); <-release }
+				<-held
+				B := c.Range(4, 16)
+				for i := 0; i < B; i++ {
+					op := c14Ops[c.Intn(len(c14Ops))]
+					if c.Chance(0.6) {
+						op = []string{"relaycancel", "relaycancel", "cancelsub", "evhcancel", "topicclose", "unregval", "relay", "subscribe", "join"}[c.Intn(9)]
+					}
+					seed := c.R.Uint64()
+					wk := &c14Worker{id: 100 + i, done: make(chan struct{})}
+					wk.cur.Store(op)
+					workers = append(workers, wk)
+					go func() {
+						defer close(wk.done)
+						rng := seed
+						rnd := func(n int) int {
+							rng = rng*6364136223846793005 + 1442695040888963407
+							return int((rng >> 33) % uint64(n))
+						}
+						w.do(op, rnd)
+						wk.cur.Store("")
+						wk.calls.Add(1)
+					}()
+				}
+				for i := 0; i < 300*B; i++ {
+					runtime.Gosched()
+				}
+				w.cancel("loop_busy")
+				close(release)
 			}
 			if mode == "at_time" {
 				if alignHB && w.nd.gs != nil {
